@@ -664,6 +664,12 @@ def functions(flags=None, want_gen=None):
         elif shape == 5:
             params.append(("o", "pos", None))
             params.append(("y", "pos", "5"))
+        # default values that are expressions evaluated where the def statement runs: they may
+        # mention the enclosing function's variable, a global, or have a side effect
+        if draw(st.integers(0, 3)) == 0:
+            alts = ["G1 - 97", "E('dflt', 6)"] + (["cl * 2", "cl"] if closure else [])
+            params = [(p[0], p[1], draw(st.sampled_from(alts))) + tuple(p[3:]) if p[2] is not None else p
+                      for p in params]
         pnames = [p[0] for p in params]
         int_params = [n for n in pnames if n in ("x", "y", "k")]
         has_o = "o" in pnames
